@@ -1,16 +1,18 @@
 """C20 — a checkpoint exists whenever a trial is resumed or warm-started from it (assembled: loop, hb, sync)."""
 import random
 
-from streams import hb, sync, loop
-from props import c05
+from streams import hb, sync, loop, pbt
+from props import c05, c20pbt
 from props.c03 import gen_ctor
 
 PID = "C20"
 LEVEL = "proof"
 HB, SYNC, LOOP = "SyneTune/Drivers/Hb.lean", "SyneTune/Drivers/Sync.lean", "SyneTune/Drivers/Loop.lean"
+PBT = "SyneTune/Drivers/Pbt.lean"
 DRIVER = LOOP
-COMPARE = {HB: hb.compare, SYNC: sync.compare, LOOP: loop.compare}
-LEAN_TARGETS = ["SyneTune.Props.C20Loop", "SyneTune.Props.C20Hb", "SyneTune.Props.C20Sync", "SyneTune.Props.C04K", "SyneTune.Props.C04"]
+COMPARE = {HB: hb.compare, SYNC: sync.compare, LOOP: loop.compare, PBT: pbt.compare}
+LEAN_TARGETS = ["SyneTune.Props.C20Loop", "SyneTune.Props.C20Hb", "SyneTune.Props.C20Sync", "SyneTune.Props.C04K", "SyneTune.Props.C04",
+                "SyneTune.Props.C20Pbt"]
 THEOREMS = [
     "SyneTune.C20Loop.delete_only_when",
     "SyneTune.C20Loop.deleted_only_stopped_or_named",
@@ -27,7 +29,7 @@ THEOREMS = [
     "SyneTune.C20Sync.not_promoted_stable",
     "SyneTune.C20Sync.not_promoted_never_resumed",
     "SyneTune.C20Sync.resume_has_ckpt_sync",
-]
+] + list(c20pbt.THEOREMS)   # scheduler-level model of PopulationBasedTraining (Props/C20Pbt.lean, stream pbt)
 TRUSTED = [
     "loop model (Model/Tuner.lean: stop/pause/delete/copy commands, removal callback), asynchronous Hyperband model "
     "(Model/HB.lean) and synchronous Hyperband model (Model/Sync*.lean), each tied to /repo by its correspondence stream",
@@ -37,7 +39,7 @@ TRUSTED = [
     "'early' are judged by the monitor alone, on the recorded dialogue of the real Tuner and the scripted backend's own record "
     "of every deletion (status of the trial and presence of the checkpoint at that moment); the callback's clock "
     "(time.perf_counter in its module) is replaced by a deterministic counter so that runs are reproducible",
-]
+] + ["(pbt) " + x for x in c20pbt.TRUSTED]
 ASSUMPTIONS = [
     "speculative early checkpoint removal (HyperbandRemoveCheckpointsCallback and its baseline variants) is exercised in both "
     "settings. OFF (cases loop / hb / sync; the scheduler has no early_checkpoint_removal_kwargs): proved on the models, and on the "
@@ -49,7 +51,7 @@ ASSUMPTIONS = [
     "checkpoints is: after on_loop_end, (#running trials + #paused trials whose checkpoint is kept) <= max_num_checkpoints, or "
     "no paused trial keeps a checkpoint (checkpoints of completed / failed trials are outside the callback's count)",
     "DEHB and PBT have no scheduler model: their resume / warm-start behaviour is decided on the real Tuner traces only",
-]
+] + ["(pbt) " + x for x in c20pbt.ASSUMPTIONS]
 RULE = ("cases: (loop) real Tuner runs with pause-and-resume schedulers (promotion Hyperband, PASHA, synchronous Hyperband, DEHB, "
         "PBT) on the scripted backend with delete_checkpoints on/off and the removal callback, every order of results inside a "
         "poll; (hb) the real promotion-type HyperbandScheduler: a trial that received STOP is never resumed; (sync) the real "
@@ -60,7 +62,7 @@ RULE = ("cases: (loop) real Tuner runs with pause-and-resume schedulers (promoti
         "the kwargs or the criterion) on the scripted backend with delete_checkpoints=True, 1..5 workers, 1..3 brackets, results of "
         "several trials inside a poll in a random interleaving, failures and external stops; monitor only (no model lines). "
         "distinct by sha256 of the spec; non-trivial iff at least one resume or warm start happened (early: at least one "
-        "speculative removal and at least one promotion after it)")
+        "speculative removal and at least one promotion after it); (pbt) " + c20pbt.RULE)
 
 
 def gen_cases(rng, tier):
@@ -147,6 +149,9 @@ def gen_cases(rng, tier):
         yield spec
     for _ in range(20 if tier == "quick" else 300):
         yield gen_early_spec(rng, tier)
+    # the real PopulationBasedTraining scheduler against its model (appended last: the cases above stay the same for a seed)
+    for _ in range(40 if tier == "quick" else 500):
+        yield dict(pbt.gen_case(rng, tier), kind="pbt")
 
 
 def corpus():
@@ -169,6 +174,13 @@ def run_impl(spec):
             loop.cleanup(t)
     if kind == "early":
         return run_early(spec)
+    if kind == "pbt":
+        r = pbt.run_impl(spec)
+        r["driver"] = PBT
+        r["meta"]["hist"] = {"pbt:" + k: v for k, v in r["meta"]["hist"].items()}
+        r["meta"]["hist"]["kind:pbt"] = 1
+        r["meta"]["nontrivial"] = pbt.nontrivial(r)
+        return r
     if kind == "hb":
         t = hb.run_scenario(spec)
         t.pop("sched")
@@ -197,6 +209,11 @@ def run_impl(spec):
 
 def nontrivial(trace):
     return bool(trace.get("meta", {}).get("nontrivial"))
+
+
+def extra(ctx):
+    """the Lean witnesses of the PBT counterexample theorems replayed on the real scheduler"""
+    c20pbt.extra(ctx)
 
 
 # ---------------------------------------------------------------------------------
